@@ -238,6 +238,11 @@ func roundTrip(fr drpcwire.Frame) string {
 	if !bytes.Equal(enc, ref) {
 		return fmt.Sprintf("AppendFrame(%v) = %s, reference encoding %s", fr, seq.Hex(enc[:min(len(enc), 40)]), seq.Hex(ref[:min(len(ref), 40)]))
 	}
+	if len(fr.Data) <= 1 {
+		if msg := appendInto(func(dst []byte) []byte { return drpcwire.AppendFrame(dst, fr) }, enc); msg != "" {
+			return fmt.Sprintf("AppendFrame(dst, %v): %s", fr, msg)
+		}
+	}
 	rem, got, ok, err := drpcwire.ParseFrame(enc)
 	if !ok || err != nil || len(rem) != 0 {
 		return fmt.Sprintf("ParseFrame(AppendFrame(%v)): ok=%v err=%v rem=%d", fr, ok, err, len(rem))
@@ -272,6 +277,33 @@ func varintRound(v uint64) string {
 	rem, out, ok, err := drpcwire.ReadVarint(enc)
 	if !ok || err != nil || len(rem) != 0 || out != v {
 		return fmt.Sprintf("ReadVarint(AppendVarint(%d)) = %d ok=%v err=%v rem=%d", v, out, ok, err, len(rem))
+	}
+	// appending is appending: whatever the destination already holds and however much room it has
+	if v < 1<<14 || v&(v-1) == 0 || (v+1)&v == 0 || v > 1<<62 {
+		if msg := appendInto(func(dst []byte) []byte { return drpcwire.AppendVarint(dst, v) }, enc); msg != "" {
+			return fmt.Sprintf("AppendVarint(dst, %d): %s", v, msg)
+		}
+	}
+	return ""
+}
+
+// appendInto checks an append-style encoder against its encoding into nil for destinations with a
+// prefix and with 0..12, 31, 64 bytes of spare capacity.
+func appendInto(f func(dst []byte) []byte, want []byte) (msg string) {
+	defer func() {
+		if r := recover(); r != nil {
+			msg = fmt.Sprintf("panic: %v", r)
+		}
+	}()
+	for _, prefix := range [][]byte{nil, {0xaa}, {0xaa, 0xbb, 0xcc}} {
+		for _, room := range []int{0, 1, 2, 3, 4, 5, 6, 7, 8, 9, 10, 11, 12, 31, 64} {
+			dst := make([]byte, len(prefix), len(prefix)+room)
+			copy(dst, prefix)
+			out := f(dst)
+			if len(out) < len(prefix) || !bytes.Equal(out[:len(prefix)], prefix) || !bytes.Equal(out[len(prefix):], want) {
+				return fmt.Sprintf("into a destination holding %d bytes with room for %d more: got %s, want prefix+%s", len(prefix), room, seq.Hex(out[:min(len(out), 40)]), seq.Hex(want[:min(len(want), 40)]))
+			}
+		}
 	}
 	return ""
 }
